@@ -269,23 +269,30 @@ def _long(a):
     return core.line_shard(exe, [case], judge=judge, timeout=1800)
 
 
-def build(ctx):
-    objs = ctx.builder.lib('asan', SRCS)
-    return ctx.builder.driver('c01', 'asan', ['c01_hash.c'], objs, libs=())
+def build(ctx, portable=False):
+    """portable=True: no CPU feature compiled in, so the portable C code of
+    SHA-256 and CRC32C runs (the default build uses SHA-NI / SSE4.2 here)."""
+    objs = ctx.builder.lib('asan', SRCS, cpu=(['X86_CPUID'] if portable else None))
+    return ctx.builder.driver('c01p' if portable else 'c01', 'asan', ['c01_hash.c'], objs, libs=(),
+                              cpu=(['X86_CPUID'] if portable else None))
 
 
 def run(ctx):
     _selftest()
     exe = build(ctx)
+    exep = build(ctx, portable=True)
     n = core.NCPU
-    seeds = core.shard_seeds(ctx.seed, 'C01', n)
-    res = core.pmap(_shard, [(exe, seeds[i], ctx.tier, i, n) for i in range(n)])
+    seeds = core.shard_seeds(ctx.seed, 'C01', 2 * n)
+    res = core.pmap(_shard, [(exe, seeds[i], ctx.tier, i, n) for i in range(n)] +
+                    [(exep, seeds[n + i], ctx.tier, i, n) for i in range(n)])
     core.merge(ctx, res)
     for r in res[:4]:
         for s in r['samples'][:1]:
             ctx.add_sample(s)
-    lres = core.pmap(_long, [(exe, c) for c in long_cases(ctx.seed, ctx.tier)])
+    lc = long_cases(ctx.seed, ctx.tier)
+    lres = core.pmap(_long, [(exe, c) for c in lc] + [(exep, c) for c in lc if c['line'].startswith('L sha256')])
     core.merge(ctx, lres)
+    ctx.cov['builds'] = ['default (SHA-NI / SSE2 / SSE4.2 as the CPU allows)', 'portable (no CPU feature compiled in)']
     ctx.count('long_streams_over_2^32_bits', sum(r['evals'] for r in lres))
     ctx.cov['rule'] = ('cases = (algorithm, message, partition into update calls[, key | salt,c,dkLen | alignment]); '
                        'every length 0..600 x {single, bytewise, random} partitions, every HMAC key length 0..200, '
@@ -298,7 +305,11 @@ def run(ctx):
 
 
 def replay(ctx, case):
-    exe = build(ctx)
+    for portable in (False, True):
+        _replay1(ctx, case, build(ctx, portable))
+
+
+def _replay1(ctx, case, exe):
     c = dict(case)
     if isinstance(c.get('expect'), list):
         c['expect'] = ('crc', bytes.fromhex(c['line'].split()[2]) if c['line'].split()[2] != '-' else b'')
